@@ -148,7 +148,22 @@ func (x *c05F) uploadRuns(from int, full string) string {
 		return "the drag upload never typed " + full
 	}
 	x.tg(0)
+	// DIRECT ORACLE: of the echo only CR LF is shown, and output passes again from here on
+	at := x.rec.length()
 	x.tout([]byte(full + "\r\n"))
+	if got := x.rec.snapshot()[at:]; !c05Only(got, 't', []byte("\r\n")) {
+		return fmt.Sprintf("the echo of the upload command %q was shown as %v", full, got)
+	}
+	return ""
+}
+
+// toutMust: output that has to pass (the drag episode is past its 200 ms window)
+func (x *c05F) toutMust(b []byte) string {
+	at := x.rec.length()
+	x.tout(b)
+	if got := x.rec.snapshot()[at:]; !c05Only(got, 't', b) {
+		return fmt.Sprintf("during the bookkeeping of a drag upload the server output %q arrived at the terminal as %v", b, got)
+	}
 	return ""
 }
 
@@ -178,8 +193,8 @@ func c05DragHistories() []c05Hist {
 				return x.calledOff(from, []byte(k.b))
 			}})
 	}
-	notFound := func(x *c05F, full string) {
-		x.tout([]byte("-bash: " + strings.Fields(full)[0] + ": command not found\r\n$ "))
+	notFound := func(x *c05F, full string) string {
+		return x.toutMust([]byte("-bash: " + strings.Fields(full)[0] + ": command not found\r\n$ "))
 	}
 	hs = append(hs,
 		// an empty bracketed paste is "ignored": it is forwarded and does NOT call the upload off
@@ -194,7 +209,9 @@ func c05DragHistories() []c05Hist {
 				if e := x.uploadRuns(from, x.dragCommand(hd)); e != "" {
 					return e
 				}
-				notFound(x, x.dragCommand(hd))
+				if e := notFound(x, x.dragCommand(hd)); e != "" {
+					return e
+				}
 				x.bookkeepingEnds()
 				return ""
 			}},
@@ -209,7 +226,9 @@ func c05DragHistories() []c05Hist {
 				if e := x.uploadRuns(from, x.dragCommand(hd)); e != "" {
 					return e
 				}
-				notFound(x, x.dragCommand(hd))
+				if e := notFound(x, x.dragCommand(hd)); e != "" {
+					return e
+				}
 				x.tin([]byte("\r"))
 				x.tout([]byte("$ "))
 				x.bookkeepingEnds()
@@ -231,7 +250,9 @@ func c05DragHistories() []c05Hist {
 				if e := x.uploadRuns(from, full); e != "" {
 					return e
 				}
-				notFound(x, full)
+				if e := notFound(x, full); e != "" {
+					return e
+				}
 				x.bookkeepingEnds()
 				if n := bytes.Count(x.rec.bytesSince(from, 's'), []byte{3}); n != 1 {
 					return fmt.Sprintf("two drops within the window sent ctrl-C %d times", n)
@@ -250,7 +271,9 @@ func c05DragHistories() []c05Hist {
 				if e := x.uploadRuns(from, x.dragCommand(hd)); e != "" {
 					return e
 				}
-				notFound(x, x.dragCommand(hd))
+				if e := notFound(x, x.dragCommand(hd)); e != "" {
+					return e
+				}
 				if _, e := x.drop(rng); e != "" {
 					return e
 				}
@@ -263,7 +286,9 @@ func c05DragHistories() []c05Hist {
 				if e := x.uploadRuns(from, x.dragCommand(hd)); e != "" {
 					return "third drop: " + e
 				}
-				notFound(x, x.dragCommand(hd))
+				if e := notFound(x, x.dragCommand(hd)); e != "" {
+					return e
+				}
 				x.bookkeepingEnds()
 				return ""
 			}},
@@ -277,10 +302,14 @@ func c05DragHistories() []c05Hist {
 				if e := x.uploadRuns(from, x.dragCommand(hd)); e != "" {
 					return e
 				}
-				notFound(x, x.dragCommand(hd))
+				if e := notFound(x, x.dragCommand(hd)); e != "" {
+					return e
+				}
 				k := c05Keys[rng.Intn(len(c05Keys))]
 				x.tin([]byte(k.b))
-				x.tout([]byte("$ "))
+				if e := x.toutMust([]byte("$ ")); e != "" {
+					return e
+				}
 				x.bookkeepingEnds()
 				return ""
 			}},
@@ -389,7 +418,7 @@ func (x *c05F) redisplay(line []byte, how int) string {
 	x.svrOut.Write(nil)
 	got := x.rec.snapshot()[from:]
 	if !c05Only(got, 't', b) {
-		return fmt.Sprintf("the redisplayed trigger %q of a finished transfer was not passed through untouched / started something: %v", b, got)
+		return fmt.Sprintf("REDISPLAY: the trigger %q of a transfer that is over, displayed again, was not passed through untouched / started something: terminal and server got %v", b, got)
 	}
 	return ""
 }
